@@ -8,9 +8,14 @@ package hydra
 // event by calling the subscriber's function in the writer's own goroutine -- it starts no
 // goroutine -- so deliveries to one subscriber happen in the order the writer produced the events
 // and never overlap; iteration over the subscribers always continues with the next subscriber.
+// Unsubscribing removes at most ONE subscription -- the leaving client's -- and never the swamp's whole
+// subscriber table (other subscribers of the same swamp keep receiving its events); no subscription is added.
+//@ trusted func (github.com/google/uuid.UUID).String(u) (s)
 //@ func (*hydra).UnsubscribeFromSwampEvents(h, clientID, swampName) (err)
-//@   opaque
+//@   property C19
 //@   modifies *
+//@   before Map.Delete [only_a_subscription_that_exists_is_removed_from_the_swamps_own_table] calls("Map.Load") == old(calls("Map.Load")) + 2 && lastretb("Map.Load", 1) && refid(arg0) == ipay(lastret("prev:Map.Load", 0))
+//@   ensures[at_most_the_leaving_clients_subscription_is_removed] calls("Map.Delete") <= old(calls("Map.Delete")) + 1 && calls("Map.Store") == old(calls("Map.Store")) && calls("Map.LoadOrStore") == old(calls("Map.LoadOrStore"))
 //@ func (*hydra).eventCallbackFunction$1(key, value) (cont)
 //@   property C19
 //@   modifies *
